@@ -1,6 +1,7 @@
 import PycsepVerif.Proto
 import PycsepVerif.RealOps
 import PycsepVerif.Model.Quadtree
+import PycsepVerif.Model.QuadCartesian
 /-!
   Driver ops for C17 (all prefixed `c17_`).
     c17_single z                      → quadkeys of from_single_resolution(z), comma separated
@@ -9,6 +10,8 @@ import PycsepVerif.Model.Quadtree
     c17_getindex keys pts             → get_index_of on an array (unlocated points dropped)
     c17_bounds keys                   → per key `xW:xE:yN:yS` (unit-square edges; lon = 360 x − 180)
     c17_area keys                     → per key the Float area in km² (bit pattern), R = 6371, s = tanh(π(1−2y))
+    c17_cartesian keys                → `xs|ys|rows` of get_cartesian(arange(n)): unit west edges, unit south edges (latitude
+                                        ascending), rows `;`-separated of cell indices; or `E:noCell`
   keys: `0213,31,...` or `-`;  pts: `x,y;x,y;...` (rationals) or `-`.
 -/
 namespace Drive.C17
@@ -47,6 +50,16 @@ def handle : List String → Option String
       | _, _ => "bad-op")
   | ["c17_bounds", keys] => some (match parseList? parseKey? keys with
       | some ks => showList (fun k => s!"{showRat (xW k)}:{showRat (xE k)}:{showRat (yN k)}:{showRat (yS k)}") ks
+      | none => "bad-op")
+  | ["c17_cartesian", keys] => some (match parseList? parseKey? keys with
+      | some ks =>
+        match getCartesian ks (List.range ks.length) with
+        | .error .noCell => "E:noCell"
+        | .error .length => "E:length"
+        | .ok G =>
+          let rows := ";".intercalate (G.map fun r => ",".intercalate (r.map fun o => match o with
+            | some k => toString k | none => "n"))
+          s!"{showList showRat (cartXs ks)}|{showList showRat (cartYs ks)}|{rows}"
       | none => "bad-op")
   | ["c17_area", keys] => some (match parseList? parseKey? keys with
       | some ks => showList (fun k => showFloat (areaKm2 k)) ks
